@@ -208,7 +208,7 @@ def narrow_configs(tier):
                 for m in mgmt:
                     backend = 'dict' if m[0] in ('dump', 'load') else 'none'
                     cfgs.append(C(mod, alg, ms, False, 'default', backend, nargs=ms + 2, spellings=0,
-                                  narrow=[list(m)], depth=7 if tier == 'quick' else 8, states=4000 if tier == 'quick' else 30000))
+                                  narrow=[list(m)], depth=7 if tier == 'quick' else 8, states=2500 if tier == 'quick' else 30000))
     return cfgs
 
 
@@ -219,7 +219,7 @@ def scale_configs(tier):
     for mod in MODULES:
         for alg in BOUNDED:
             for backend in (('none',) if tier == 'quick' else ('none', 'dict')):
-                cfgs.append(C(mod, alg, 30, False, 'default', backend, nargs=35, spellings=0, scale=True, depth=4, states=300 if tier == 'quick' else 3000))
+                cfgs.append(C(mod, alg, 30, False, 'default', backend, nargs=35, spellings=0, scale=True, depth=4, states=150 if tier == 'quick' else 3000))
     return cfgs
 
 
@@ -439,9 +439,9 @@ BOUNDS = {
     # prop: (quick (depth, states), thorough (depth, states), thorough dfs depth)
     'C01': ((6, 1500), (8, 12000), 4),
     'C02': ((6, 1500), (8, 12000), 4),
-    'C05': ((6, 2000), (8, 15000), 4),
-    'C06': ((6, 800), (8, 10000), 4),
-    'C07': ((6, 1500), (8, 12000), 4),
+    'C05': ((6, 1200), (8, 15000), 4),
+    'C06': ((6, 500), (8, 10000), 4),
+    'C07': ((6, 900), (8, 12000), 4),
     'C15': ((5, 1200), (7, 10000), 4),
     'C16': ((5, 1200), (7, 10000), 4),
     'C18': ((5, 1000), (7, 8000), 3),
